@@ -81,6 +81,8 @@ func menuZSets() [][][]byte {
 		bs("ZREVRANGE", "z1", "0", "0"), bs("ZREVRANGE", "z1", "0", "-1", "WITHSCORES"), bs("ZREVRANGE", "z1", "1", "5"), bs("ZRANGEBYSCORE", "z1", "-inf", "+inf"), bs("ZRANGEBYSCORE", "z1", "1", "2"),
 		bs("ZRANGEBYSCORE", "z1", "(1", "2"), bs("ZRANGEBYSCORE", "z1", "1", "(2", "WITHSCORES"), bs("ZRANGEBYSCORE", "z1", "-inf", "+inf", "LIMIT", "1", "1"), bs("ZRANGEBYSCORE", "z1", "0", "5", "LIMIT", "5", "2"),
 		bs("ZRANGEBYSCORE", "z1", "0", "5", "LIMIT", "0", "-1"), bs("ZREVRANGEBYSCORE", "z1", "2", "1"), bs("ZREVRANGEBYSCORE", "z1", "+inf", "-inf", "WITHSCORES"), bs("ZREVRANGEBYSCORE", "z1", "(2", "(1"),
+		bs("ZREVRANGEBYSCORE", "z1", "(2", "1"), bs("ZREVRANGEBYSCORE", "z1", "2", "(1", "WITHSCORES"), bs("ZREVRANGEBYSCORE", "z1", "+inf", "-inf", "LIMIT", "0", "1"),
+		bs("ZREVRANGEBYSCORE", "z1", "5", "0", "WITHSCORES", "LIMIT", "1", "2"),
 		bs("EXISTS", "z1", "z2"), bs("TYPE", "z1"), bs("DEL", "z1"), bs("RENAME", "z1", "z2"), bs("ZRANGE", "z2", "0", "-1"), bs("KEYS", "z*")}
 }
 
